@@ -30,6 +30,10 @@ def gen_team_name(rng, forbid=()):
             n = rng.randint(1, 4)
             name = ''.join(rng.choice(UNICODE_BITS + list('abc XY')) for _ in range(n)).strip() \
                 or 'Ü'
+        if rng.random() < 0.04:
+            # a very long name (the protocol sets no limit)
+            name = ''.join(rng.choice(TEAM_ALPHABET) for _ in range(rng.randint(60, 300))).strip() \
+                or 'L' * 80
         if rng.random() < 0.12:
             # blanks are part of a quoted name: runs of spaces, a tab, leading / trailing blanks
             # must come back exactly as announced
@@ -54,7 +58,8 @@ def gen_board_id(rng, i):
         return str(i + 1)
     if k < 0.75:
         return f'{rng.choice(["R1", "QF", "Final", "seg 2"])}-{rng.randint(1, 99)}'
-    return ''.join(rng.choice(UNICODE_BITS + list('0123456789-"\\ \t')) for _ in range(rng.randint(1, 6)))
+    n = rng.randint(1, 6) if rng.random() < 0.9 else rng.randint(40, 160)
+    return ''.join(rng.choice(UNICODE_BITS + list('0123456789-"\\ \t')) for _ in range(n))
 
 
 def gen_deal(rng):
